@@ -101,8 +101,10 @@ def check(ctx):
     rb = ctx.body(RECV, rule=RO)
     if rb is not None:
         an = ctx.an(rb)
-        kf = ctx.captured_flag(rb, "keep_alive")
-        gt = ctx.graph_with(rb, [kf], pinned={kf: True})
+        from .listen_common import KeepAliveMode
+        km = getattr(ctx, "_keepalive_mode", None) or KeepAliveMode(ctx)
+        ctx._keepalive_mode = km
+        gt = km.on() or ctx.graph_with(rb, [ctx.captured_flag(rb, "keep_alive")], pinned={ctx.captured_flag(rb, "keep_alive"): True})
         ev = events.extract(ctx, rb)
         sends = [(bb, e) for bb, es in ev.items() for _, e, _ in es if e == "send:configuration::clientbound::KeepAlive"]
         ctx.exact(RO, "KeepAlive send in receive_packet", len(sends), 1, rb.loc)
